@@ -15,7 +15,9 @@ EXPLANATION = (
     'classes defined in the printer package are allowed.  R18.2: Tree stores attributes only in __init__; no printer '
     'writes module-level state.  An embedded positive example (a snippet that renames a token key) must fire on every '
     'run so the zero-findings outcome is not vacuous.  Decides the property for the encoders\' own code under this '
-    'model of which calls return fresh objects; lxml / ccg2lambda internals are not analysed.')
+    'model of which calls return fresh objects; lxml / ccg2lambda internals are not analysed.'
+    ' Module-level objects of the printer modules (buffers, caches) may not be written to by any function, through local aliases either.'
+)
 TRUSTED = ['CPython ast', 'sa/pysym.py path walker', 'alias model in sa/effects.py (shallow constructors, element-returning methods)']
 
 POSITIVE_EXAMPLE = '''
